@@ -347,11 +347,12 @@ partial def loop (inp : IO.FS.Stream) (out : IO.FS.Stream) (st : DState) : IO Un
     | "sign" =>
       -- sign groups=… objsets=1+2;3 ht=<hash type> fp=<hex> t=… now=… nblobs=k, then k `blob h=` lines
       let nb := kv.nat "nblobs"
-      let mut blobs : List Bytes := []
+      let mut blobs : List (Bytes × Int) := []
       for _ in [0:nb] do
         let l ← inp.getLine
         let k := parseKV (((l.trimAscii.toString.splitOn " ").filter (· != "")).drop 1)
-        blobs := blobs ++ [k.bytes "h"]
+        -- each signature object is added with its own clock reading
+        blobs := blobs ++ [(k.bytes "h", if k.has "now" then k.int "now" else kv.int "now")]
       match st.img with
       | none =>
         out.putStrLn "noimg"
@@ -378,7 +379,7 @@ partial def loop (inp : IO.FS.Stream) (out : IO.FS.Stream) (st : DState) : IO Un
             | .ok _, [] =>
               out.putStrLn "sg failed"
               failed := true
-            | .ok md, b :: rest =>
+            | .ok md, (b, nowB) :: rest =>
               out.putStrLn s!"md g={gs.g} {hex (encMD md)}"
               bl := rest
               match sigDescriptorInput gs (kv.int "ht") (kv.bytes "fp") b with
@@ -386,7 +387,7 @@ partial def loop (inp : IO.FS.Stream) (out : IO.FS.Stream) (st : DState) : IO Un
                 out.putStrLn "sg failed"
                 failed := true
               | .ok di =>
-                let (img', r) := step sha ph cur (.add di (parseTOpt (kv.get "t"))) (kv.int "now")
+                let (img', r) := step sha ph cur (.add di (parseTOpt (kv.get "t"))) nowB
                 out.putStrLn s!"res {resStr r}"
                 if r == .ok then cur := img' else failed := true
           loop inp out { st with img := some cur }
